@@ -810,6 +810,12 @@ impl Checker<'_> {
                             let mut j = i;
                             let mut is_end = false;
                             while j < w.len() && model::is_sys(&w[j].key) {
+                                if !w[j].del && w[j].key.starts_with(&format!("$SYS/clients/{cid}/")) && is_registration_key(&w[j].key) {
+                                    // the client itself still writes its registrations: what came
+                                    // before is bookkeeping of its requests (an unsubscribe), not
+                                    // the end of its session
+                                    break;
+                                }
                                 if w[j].del
                                     && (w[j].key == format!("$SYS/clients/{cid}/protocol")
                                         || w[j].key == format!("$SYS/clients/{cid}/address"))
@@ -1028,6 +1034,15 @@ impl Checker<'_> {
                     while i < w.len() {
                         let e = &w[i];
                         if model::is_sys(&e.key) {
+                            if e.del && self.p.ops.iter().any(|o| {
+                                !o.placed
+                                    && o.inv < e.seq
+                                    && matches!(&o.req, Some(CM::Delete(d)) if d.key == e.key)
+                            }) {
+                                // some client's own delete request explains it (a client may
+                                // delete its own clientName, grave goods, last will)
+                                break;
+                            }
                             if e.del && e.key.starts_with("$SYS/locks/") && lock_released_by_next_session_end(w, i, cid) {
                                 // the server's own bookkeeping at the beginning of the next
                                 // session end (unlock_all runs first there): not this grave good's
